@@ -21,6 +21,7 @@
 #include <ios>
 #include <new>
 #include <utility>
+#include <dispenso/schedulable.h>
 #include <dispenso/timed_task.h>
 #include "vf.h"
 
@@ -38,6 +39,9 @@
 #endif
 #ifndef VF_ACTS
 #define VF_ACTS 0xf  // bit mask over Act
+#endif
+#ifndef VF_PAST
+#define VF_PAST 2  // first run time: 0 in the future (queued), 1 in the past (kicked off inside schedule()), 2 symbolic
 #endif
 #ifndef VF_STRICT_CANCEL
 #define VF_STRICT_CANCEL 0
@@ -118,10 +122,14 @@ struct Fn {
   }
 };
 
-// ------------------------------------------------------------------------------ model schedulable
-// schedule(f, ForceQueuingTag) keeps a copy of the closure (typed slot); a worker thread runs it
-// later.  (Only this overload is used by TimedTaskImpl.)
-enum { kSlots = 3 };
+// ------------------------------------------------------------------------------ backing schedulable
+// VF_SCHED_KIND 0: the real dispenso::ImmediateInvoker (the closure runs on the thread that kicks the
+//   task off, i.e. the scheduler thread -- a documented backing schedulable for timed tasks).
+// VF_SCHED_KIND 1: model of a pool: schedule(f, ForceQueuingTag) keeps a copy of the closure in a typed
+//   slot; a worker thread runs it at an arbitrary later time.  (TimedTaskImpl only uses this overload.)
+#ifndef VF_SCHED_KIND
+#define VF_SCHED_KIND 1
+#endif
 static int32_t g_nsched;    // closures stored
 static int32_t g_next_run;  // next closure a worker takes
 static void (*g_run)(int32_t);
@@ -133,31 +141,45 @@ struct Slots {
     U() {}
     ~U() {}
   };
-  static U s[kSlots];
+  static U s0, s1;
   static void run(int32_t i) {
-    s[i].w();
-    s[i].w.~W();
+    if (i == 0) {
+      s0.w();
+      s0.w.~W();
+    } else {
+      s1.w();
+      s1.w.~W();
+    }
   }
 };
 template <class W>
-typename Slots<W>::U Slots<W>::s[kSlots];
+typename Slots<W>::U Slots<W>::s0;
+template <class W>
+typename Slots<W>::U Slots<W>::s1;
 
 struct ModelSched {
   template <class F>
   void schedule(F&& f, dispenso::ForceQueuingTag) {
     using W = typename std::decay<F>::type;
     int32_t i = g_nsched;
-    vf_check(i < kSlots, "harness bound: number of scheduled closures");
-    if (i >= kSlots) {
+    vf_check(i < 2, "harness bound: number of scheduled closures");
+    if (i == 0) {
+      new (&Slots<W>::s0.w) W(std::forward<F>(f));
+    } else if (i == 1) {
+      new (&Slots<W>::s1.w) W(std::forward<F>(f));
+    } else {
       return;
     }
-    new (&Slots<W>::s[i].w) W(std::forward<F>(f));
     g_run = &Slots<W>::run;
     VfAtomic a;
     g_nsched = i + 1;
   }
 };
+#if VF_SCHED_KIND == 0
+#define g_sched dispenso::kImmediateInvoker
+#else
 static ModelSched g_sched;
+#endif
 
 static inline void worker_body() {
   for (int k = 0; k < VF_POLLS; ++k) {
@@ -174,9 +196,11 @@ static inline void worker_body() {
     }
   }
 }
+#if VF_SCHED_KIND == 1
 static void worker1(void*) { worker_body(); }
 #if VF_WORKERS >= 2
 static void worker2(void*) { worker_body(); }
+#endif
 #endif
 
 // ------------------------------------------------------------------------------ scheduler object
@@ -193,17 +217,23 @@ static SchedStore g_ss;
 
 using Impl = dispenso::detail::TimedTaskImpl;
 
+// as in timeQueueRunLoop: top / pop under the queue mutex (one step: the heap is only touched under the
+// mutex), the kick-off happens outside
+VF_NOINLINE static bool take_next(std::shared_ptr<Impl>* next) {
+  std::lock_guard<std::mutex> lk(S.queueMutex_);
+  if (S.tasks_.empty()) {
+    return false;
+  }
+  *next = S.tasks_.top();
+  S.tasks_.pop();
+  return true;
+}
+
 static void sched_thread(void*) {
   for (int i = 0; i < VF_KICKS; ++i) {
     std::shared_ptr<Impl> next;
-    {
-      // as in timeQueueRunLoop: top / pop under the queue mutex, kick off outside
-      std::lock_guard<std::mutex> lk(S.queueMutex_);
-      if (S.tasks_.empty()) {
-        return;
-      }
-      next = S.tasks_.top();
-      S.tasks_.pop();
+    if (!take_next(&next)) {
+      return;
     }
     S.kickOffTask(std::move(next), g_now);
   }
@@ -229,7 +259,7 @@ VF_NOINLINE static void setup() {
   g_times = (int32_t)vf_range_u32(0, VF_TIMES);
   g_ret[0] = vf_nondet_bool();
   g_ret[1] = vf_nondet_bool();
-  bool past = vf_nondet_bool();
+  bool past = VF_PAST == 2 ? vf_nondet_bool() : (VF_PAST == 1);
   bool steady = vf_nondet_bool();
   g_act = vf_range_u32(0, 3);
   vf_assume(((VF_ACTS) >> g_act) & 1);
@@ -263,9 +293,11 @@ extern "C" void vf_main() {
   const uint32_t act = g_act;
 
   vf_spawn(sched_thread, nullptr);
+#if VF_SCHED_KIND == 1
   vf_spawn(worker1, nullptr);
 #if VF_WORKERS >= 2
   vf_spawn(worker2, nullptr);
+#endif
 #endif
 
   if (act == kCancelDestroy || act == kCancelKeep) {
